@@ -30,6 +30,9 @@ def scenarios(ctx: Ctx, res: Result):
     for sc in outage_family():
         res.count('outage_family')
         yield sc
+    for sc in gc.repeated_failure_family():
+        res.count('repeated_failure_family')
+        yield sc
     for sc in gc.merged_backlog_family():
         res.count('merged_backlog_family')
         yield sc
@@ -54,7 +57,7 @@ def search(ctx: Ctx) -> Result:
 
 SPEC = PropSpec(
     prop='C06', translators=[], run=run, search=search,
-    rule='outage family (a link down for 5..120 s around the ping/resync thresholds with 0-2 changes pending), merged-backlog family, '
+    rule='repeated-failure family (2-3 consecutive failed or unacknowledged SYNCs to one peer with successive states of one run), outage family (a link down for 5..120 s around the ping/resync thresholds with 0-2 changes pending), merged-backlog family, '
          'and seeded random fault sequences of 8-40 operations over {input, pass, deliver, down, up, fail-after-delivery, '
          'tick 1/5/10/31/61} for 2-3 instances with default and short periods, each followed by healing all links and running '
          'the protocol to quiescence',
